@@ -300,6 +300,12 @@ var collectFns = map[assignMode]collectFn{
 			// the caller.
 			return a, errors.Newf("top N: expected numeric value, got %T", x)
 		}
+		if math.IsNaN(val) {
+			// NaN is not ordered (every comparison with it is false): it
+			// would sit at the front and push the real maxima out of the
+			// array. It is not collected, like nil.
+			return a, nil
+		}
 		res := make([]interface{}, len(a)+1)
 		i := 0
 		for ; i < len(a) && a[i].(float64) >= val; i++ {
@@ -330,6 +336,10 @@ var collectFns = map[assignMode]collectFn{
 			// Ensure the array is returned, so that it remains unchanged in
 			// the caller.
 			return a, errors.Newf("bottom N: expected numeric value, got %T", x)
+		}
+		if math.IsNaN(val) {
+			// See above.
+			return a, nil
 		}
 		res := make([]interface{}, len(a)+1)
 		i := 0
